@@ -49,3 +49,6 @@
 (define-fun natval_pad ((x (Array Int Int)) (ox Int) (xl Int) (p (Array Int Int)) (k Int)) Bool
   (=> (and (ispad x ox xl p) (>= xl 0) (>= k 0))
       (= (natval p 0 k) (ite (<= k xl) (natval x ox k) (scaled (natval x ox xl) (- k xl))))))
+;@lemma prefixes of a digit string have smaller or equal value
+(define-fun natval_prefix_le ((x (Array Int Int)) (o Int) (k Int) (m Int)) Bool
+  (=> (and (<= 0 k) (<= k m) (isdigits x o m)) (<= (natval x o k) (natval x o m))))
